@@ -69,6 +69,9 @@ func c20Universes(level int) []c20Universe {
 	// referring document, its literal names a type of the other one)
 	us = append(us, mk("object-default-across-files/flat", flat, [4]J{{"a1": str, "d": J{"$ref": "b.json#/$defs/Thing", "default": J{"n": 1}}}, {"b1": in, "t": ref("#/$defs/Thing")}, {"c1": str}, {"d1": in}},
 		[4]J{nil, {"Thing": J{"type": "object", "properties": J{"n": in}, "required": A{"n"}}}, nil, nil}, noExtra))
+	// a definition that is nothing but a reference into another document
+	us = append(us, mk("ref-only-definition/flat", flat, [4]J{{"a1": str}, {"b1": in, "t": ref("#/$defs/Thing")}, {"c1": str}, {"d1": in}},
+		[4]J{{"Alias": ref("b.json#/$defs/Thing")}, {"Thing": J{"type": "object", "properties": J{"n": in}}}, nil, nil}, noExtra))
 	us = append(us, mk("chain/nested", nested, [4]J{{"a1": str, "b": ref("sub/b.json")}, {"b1": in, "c": ref("deep/c.json")}, {"c1": str, "d": ref("../../other/d.json")}, {"d1": in}}, ownDefs, noExtra))
 	us = append(us, mk("diamond/nested", nested, [4]J{{"b": ref("./sub/b.json"), "c": ref("sub/deep/c.json")}, {"b1": in, "d": ref("../other/d.json")}, {"c1": str, "d": ref("../../other/d.json")}, {"d1": in}}, [4]J{}, noExtra))
 	// same base name in two directories: x/main.json -> ./common.json (x/common.json), y/main.json -> ./common.json (y/common.json)
@@ -472,6 +475,8 @@ func c20(ctx *Ctx) {
 				if len(h) == 1 || len(h) == 4 {
 					if msg := c20TypeCheck(chk, cfg, st); msg != "" && strings.Contains(msg, "import each other cyclically") && strings.Contains(u.name, "cycle") {
 						ctx.Run.Count("states_with_import_cycle_forced_by_the_mapping(not judged)", 1) // a reference cycle split over two packages cannot build in Go
+					} else if msg != "" && strings.HasPrefix(u.name, "ref-only-definition") && strings.Contains(msg, "imported and not used") && ctx.Run.Listed("REF_ONLY_DEFINITION_UNUSED_IMPORT") {
+						ctx.Run.Known("REF_ONLY_DEFINITION_UNUSED_IMPORT", fmt.Sprintf("C20/%s: history %v: %s", name, h, trunc(msg, 200)), replay)
 					} else if msg != "" && (strings.HasPrefix(u.name, "allof-ref") || strings.HasPrefix(u.name, "anyof-ref")) && strings.Contains(msg, "imported and not used") && ctx.Run.Listed("CROSS_PACKAGE_COMPOSITE_UNUSED_IMPORT") {
 						ctx.Run.Known("CROSS_PACKAGE_COMPOSITE_UNUSED_IMPORT", fmt.Sprintf("C20/%s: history %v: %s", name, h, trunc(msg, 200)), replay)
 					} else if msg != "" && mp.name == "two-same-last-elements-imported-by-third" && strings.Contains(msg, "common redeclared in this block") && ctx.Run.Listed("IMPORT_ALIAS_COLLISION") {
